@@ -12,7 +12,10 @@ MANIFEST = dict(
          "(byte-order independence) and every checksum tail (IP, TCP, UDP incl. 0->0xffff, ICMP, ICMPv6, ICMP extensions) "
          "verifies for all buffers <= 65535 bytes; the nibble-table crc32 (table regenerated from the source) equals the "
          "bitwise IEEE CRC-32; a code-shaped serialisation model of Ethernet/802.1Q/IPv4/IPv6/TCP/UDP/ICMP/Raw stacks "
-         "satisfies an RFC dissector. Tied to the code by three-way differential runs (implementation under ASan/UBSan vs "
+         "satisfies an RFC dissector. The same statements are proved over the code-shaped wire models of C01-C04 "
+         "(Wire/Derived: checksums verify in situ, length / offset fields equal what they govern, next-protocol tags name the "
+         "follower, Ethernet pads to 60 with zeros) and, through layer_in_packet, inside the final bytes of whole packets of any "
+         "depth (packet_ip_udp/tcp/icmp, packet_ip6_*, packet_eth). Tied to the code by three-way differential runs (implementation under ASan/UBSan vs "
          "model vs RFC dissector oracle) on API-built and re-serialised parsed packets, plus libpcap filter predicates.",
     note="Trusted: Lean kernel + standard axioms; hand-written models tied by correspondence (harness/c05_wire.cpp); the RFC "
          "dissector (lean/TinsModel/Checksum/Dissect.lean) and libpcap as oracles; generator coverage bounds what the tie sees; "
